@@ -15,7 +15,7 @@ CHECK = Check(
     "C06",
     rule=(
         "pairs of 3D boxes built by construction in classes {independent, near-identical, nested, touching, "
-        "disjoint, sliver, axis-aligned/near multiples of pi/2} with both quaternion signs and z offsets around the "
+        "disjoint, sliver, axis-aligned/near multiples of pi/2, corner-overlap} with both quaternion signs and z offsets around the "
         "height-overlap boundary, plus a common rigid motion (rotation about the ego, translation up to 1e5 m) and a "
         "map-frame rendering; pairs of integer ROIs likewise. Non-trivial = overlapping, non-identical, "
         "non-axis-aligned pair (0.01 < reference IoU < 0.99 and yaw not within 1e-3 of a multiple of pi/2) for 3D; "
@@ -45,7 +45,7 @@ def _box(draw, x=None, y=None):
 
 @st.composite
 def pairs3d(draw, tier="quick"):
-    kind = draw(st.sampled_from(["indep", "near", "nested", "touch", "disjoint", "sliver", "axis", "overlap", "overlap"]))
+    kind = draw(st.sampled_from(["indep", "near", "nested", "touch", "disjoint", "sliver", "axis", "overlap", "overlap", "corner", "corner"]))
     a = _box(draw)
     if kind == "sliver":
         a["size"] = [draw(GEN.fl(0.05, 0.1)), draw(GEN.fl(5, 30)), draw(GEN.fl(0.5, 3))]
@@ -70,6 +70,19 @@ def pairs3d(draw, tier="quick"):
         if abs(math.sin(b["yaw"] - a["yaw"])) > 0.5:
             m = min(w, l) * s
             b["size"] = [m, m, b["size"][2]]
+    elif kind == "corner":
+        # overlap only near the corners: b displaced along both of a's axes by almost the sum of the half extents,
+        # so that the centre distance lies between (l1+l2)/2 and the sum of the half diagonals
+        wb, lb = w * draw(GEN.fl(0.5, 1.6)), l * draw(GEN.fl(0.5, 1.6))
+        fx, fy = draw(GEN.fl(0.55, 1.05)), draw(GEN.fl(0.55, 1.05))
+        sx, sy = draw(st.sampled_from([1, -1])), draw(st.sampled_from([1, -1]))
+        c, s = math.cos(a["yaw"]), math.sin(a["yaw"])
+        dx, dy = sx * fx * (l + lb) / 2, sy * fy * (w + wb) / 2
+        b.update(
+            p=[a["p"][0] + c * dx - s * dy, a["p"][1] + s * dx + c * dy, a["p"][2] + draw(GEN.fl(-0.3, 0.3)) * h],
+            yaw=a["yaw"] + draw(st.sampled_from([0.0, 0.0, 0.05, -0.2, PI])),
+            size=[wb, lb, h * draw(GEN.fl(0.7, 1.3))],
+        )
     elif kind in ("touch", "disjoint"):
         # b is a's copy shifted along a's length axis by exactly l (touch) or more (disjoint)
         k = 1.0 if kind == "touch" else draw(GEN.fl(1.05, 4.0))
